@@ -1,6 +1,6 @@
 (* Model of the IGS tokenizer: src/parsers/igs/mod.rs
      enum State, enum LoopState, struct Parser {state, parsed_numbers, parsed_string, loop_state, loop_cmd, loop_parameters,
-     got_double_colon, cur_loop}, struct Loop, Loop::{new, next_step}, <Parser as BufferParser>::{print_char, get_next_action},
+     got_double_colon, cur_loop}, struct Loop, Loop::{new (rejects step <= 0), next_step (saturating counter and parameter arithmetic)}, <Parser as BufferParser>::{print_char, get_next_action},
      parse_next_number; IgsCommands::from_char (src/parsers/igs/cmd.rs) through the generated letter list Gen/IgsGen.v.
 
    Characters are N (the Rust char's scalar value); a String is a list of characters.  Two things are NOT modelled and are
@@ -17,7 +17,8 @@ Local Open Scope Z_scope.
 
 Definition SITE_IGS_NUMS : N := 30.        (* self.parsed_numbers[k], k = 0..4 *)
 Definition SITE_IGS_LAST : N := 31.        (* self.loop_parameters.last_mut().unwrap() (.last_mut().unwrap()) *)
-Definition SITE_IGS_LOOP_ARITH : N := 32.  (* Loop::next_step: i32 `-`, `+`, abs *)
+Definition SITE_IGS_LOOP_ARITH : N := 32.  (* Loop::next_step: the i32 `-` and abs that are still plain (i - from, |i|, to - 1 - i); `i += step` and the
+                                              +n / -n / !n parameter arithmetic saturate since the fix commits *)
 Definition SITE_IGS_LOOP_REM : N := 33.    (* % self.parameters.len() with no parameter group *)
 Definition SITE_IGS_LOOP_INDEX : N := 34.  (* self.parameters[cur_parameter] *)
 Definition SITE_IGS_SLEEP : N := 35.       (* thread::sleep(200 ms * delay), delay <> 0: a stall (or u64 overflow for delay < 0) *)
@@ -125,8 +126,8 @@ Section Igs.
     match param_base p' x y with
     | None => Ok None
     | Some v =>
-      v' <- (if mode =? 1 then chkl (v + x) else if mode =? 2 then chkl (x - v) else if mode =? 3 then chkl (v - x) else Ok v) ;;
-      Ok (Some v')
+      (* value.saturating_add(x) / x.saturating_sub(value) / value.saturating_sub(x) *)
+      Ok (Some (if mode =? 1 then sat (v + x) else if mode =? 2 then sat (x - v) else if mode =? 3 then sat (v - x) else v))
     end.
 
   Fixpoint eval_params (l : iloop) (ps : list str) : res (list Z) :=
@@ -149,7 +150,8 @@ Section Igs.
         let '(x', ok) := exec x (l_cmd l) vals (l_str l) in
         if negb (l_delay l =? 0) then Panic SITE_IGS_SLEEP
         else
-          i' <- (if l_from l <? l_to l then chkl (l_i l + l_step l) else chkl (l_i l - l_step l)) ;;
+          (* self.i.saturating_add(self.step) / self.i.saturating_sub(self.step) *)
+          let i' := if l_from l <? l_to l then sat (l_i l + l_step l) else sat (l_i l - l_step l) in
           Ok (Some (x', {| l_i := i'; l_from := l_from l; l_to := l_to l; l_step := l_step l; l_delay := l_delay l; l_cmd := l_cmd l;
                            l_str := l_str l; l_params := l_params l |}, ok)).
 
@@ -167,6 +169,8 @@ Section Igs.
       match from_char (i_lcmd p) with
       | None => Ok (mkw p1 (w_x w) (w_fb w), false)                         (* Loop::new(..)? *)
       | Some cmd =>
+        if c <=? 0 then Ok (mkw p1 (w_x w) (w_fb w), false)                  (* Loop::new: `if step <= 0 { return Err(..) }` *)
+        else
         let l := {| l_i := a; l_from := a; l_to := b; l_step := c; l_delay := d; l_cmd := cmd; l_str := i_str p; l_params := i_lparams p |} in
         r <- next_step (w_x w) l ;;
         match r with
